@@ -748,6 +748,9 @@ class Server(BaseComponent):
         if self._buffers[sock]:
             data = self._buffers[sock].popleft()
             self._write(sock, data)
+            if sock not in self._buffers:
+                # a fatal send error made _write close the connection
+                return
 
         if not self._buffers[sock]:
             if sock in self._closeq:
